@@ -436,6 +436,25 @@ class Exec:
                     return [(base.items[k], st)]
                 return [(Exc("IndexError", lineno), st)]
             raise Unsupported("tuple index %r" % (idx,))
+        if isinstance(base, VDict) and isinstance(idx, VStr):
+            outs = []
+            rest = st
+            for k, v in base.items.items():
+                if rest is None:
+                    break
+                hit = None
+                nxt = None
+                for b, s in self.branch(rest, idx.t == V.str_const(k), lineno):
+                    if b:
+                        hit = s
+                    else:
+                        nxt = s
+                if hit is not None:
+                    outs.append((v, hit))
+                rest = nxt
+            if rest is not None:
+                outs.append((Exc("KeyError", lineno), rest))
+            return outs
         if isinstance(base, VOpaque):
             return [(VOpaque(base.tag + "[]"), st)]
         if isinstance(base, VNone):
@@ -742,6 +761,9 @@ class Exec:
         if isinstance(op, (ast.NotEq, ast.IsNot)):
             return [(z3.Not(self.eq(a, b)), st)]
         # ordering
+        if isinstance(a, VOpaque) or isinstance(b, VOpaque):
+            # a value outside the model: the comparison may go either way
+            return [(z3.Bool("opaque_cmp!%s" % logic.fresh("n").decl().name().split("!")[1]), st)]
         for x in (a, b):
             if isinstance(x, VNone):
                 return [(Exc("TypeError", lineno, "ordering with None"), st)]
@@ -806,6 +828,9 @@ class Exec:
         if isinstance(lst, VTuple):
             c = z3.Or(*[V.eq(x, y) for y in lst.items]) if lst.items else z3.BoolVal(False)
             return [(b, s, None) for b, s in self.branch(st, c, lineno)]
+        if isinstance(lst, VDict):
+            c = z3.Or(*[V.eq(x, VStr(k)) for k in lst.items]) if lst.items and isinstance(x, VStr) else z3.BoolVal(False)
+            return [(b, s, None) for b, s in self.branch(st, c, lineno)]
         if not isinstance(lst, SList):
             r = self.ctx.contracts.member(self, x, lst, st, lineno)
             if r is not None:
@@ -832,6 +857,17 @@ class Exec:
         r = self.ctx.contracts.listcomp(self, node, st)
         if r is not None:
             return r
+        if len(node.generators) == 1:
+            # a comprehension over a value outside the model is outside the model (its element and filter expressions
+            # may only mention the loop variables: checked syntactically, so nothing of the modelled state is touched)
+            g0 = node.generators[0]
+            rs = self.eval(g0.iter, st)
+            if len(rs) == 1 and isinstance(self.deref(rs[0][0], rs[0][1]), VOpaque) if not isinstance(rs[0][0], Exc) else False:
+                bound = {n.id for n in ast.walk(g0.target) if isinstance(n, ast.Name)}
+                used = {n.id for e in [node.elt] + list(g0.ifs) for n in ast.walk(e) if isinstance(n, ast.Name)}
+                calls = [n for e in [node.elt] + list(g0.ifs) for n in ast.walk(e) if isinstance(n, (ast.Call, ast.Attribute))]
+                if used <= bound and not calls:
+                    return [(VOpaque("listcomp(opaque)"), rs[0][1])]
         if len(node.generators) != 1 or node.generators[0].ifs:
             raise Unsupported("list comprehension shape (line %d)" % node.lineno)
         g = node.generators[0]
@@ -928,7 +964,25 @@ class Exec:
                         kw[k.arg] = rs[0][0]
                     outs.extend(self.method(base, f.attr, vals, kw, s2, node))
             return outs
-        raise Unsupported("call shape at line %d" % lineno)
+        # callee given by an expression (e.g. a table of functions indexed by a name)
+        outs = []
+        for fv, s in self.eval(f, st):
+            if isinstance(fv, Exc):
+                outs.append((fv, s))
+                continue
+            if not isinstance(fv, VFunc):
+                raise Unsupported("call of %r at line %d" % (fv, lineno))
+            for vals, s2 in self.eval_seq(node.args, s):
+                if isinstance(vals, Exc):
+                    outs.append((vals, s2))
+                    continue
+                if node.keywords:
+                    raise Unsupported("keyword arguments in an indirect call (line %d)" % lineno)
+                r = self.ctx.contracts.call_func(self, fv, vals, s2, node)
+                if r is None:
+                    raise Unsupported("call of function value %s at line %d" % (fv.name, lineno))
+                outs.extend(r)
+        return outs
 
     def type_test(self, name, v, node, st):
         """isinstance / hasattr / callable on a value -> VBool"""
@@ -986,6 +1040,8 @@ class Exec:
 
     def builtin(self, name, args, kw, st, node):
         lineno = node.lineno
+        if name in ("list", "enumerate") and len(args) == 1 and isinstance(self.deref(args[0], st), VOpaque):
+            return [(VOpaque(name + "(opaque)"), st)]       # a value outside the model stays outside the model
         if name == "len":
             v = self.deref(args[0], st)
             if isinstance(v, VOpt) and isinstance(v.val, SList):
@@ -1131,6 +1187,8 @@ class Exec:
             return self.list_method(base, name, args, st, node)
         if isinstance(base, VObj):
             return self.ctx.contracts.call_obj(self, base, name, args, kw, st, node)
+        if isinstance(base, VStr) and name == "join" and len(args) == 1 and isinstance(self.deref(args[0], st), VOpaque):
+            return [(VOpaque("join(opaque)"), st)]
         if isinstance(base, VStr) and name in ("upper", "lower") and not args:
             # strings are only compared: upper()/lower() is an uninterpreted function, exact on the interned constants
             f = z3.Function("str_" + name, z3.IntSort(), z3.IntSort())
@@ -1471,7 +1529,12 @@ class Exec:
                 outs.append(Outcome("next", ok))
             return outs
         if isinstance(base, VOpaque):
-            return [Outcome("next", st)]
+            # a dictionary outside the model: no modelled effect; the write itself is remembered (ghost) so that a
+            # contract can say "was registered"
+            s = st.fork()
+            if isinstance(tgt.value, ast.Attribute) and isinstance(tgt.value.value, ast.Name) and tgt.value.value.id == "self":
+                s.ghost.setdefault("registered", []).append((tgt.value.attr, idx, v))
+            return [Outcome("next", s)]
         r = self.ctx.contracts.set_item(self, base, idx, v, st, lineno)
         if r is not None:
             return r
